@@ -113,6 +113,19 @@ func runRequest(m *cors.Middleware, rq request) string {
 			}
 			atEntry = cloneHeader(rec.h)
 			statusIn = rec.status
+			if adversarial {
+				// a hostile handler overwrites, in place, every slice the middleware handed to it
+				for _, v := range w.Header() {
+					for i := range v {
+						v[i] = "MUTATED-BY-HANDLER"
+					}
+				}
+				for _, v := range r.Header {
+					for i := range v {
+						v[i] = "MUTATED-BY-HANDLER"
+					}
+				}
+			}
 			// the handler's own output
 			w.Header().Add("Vary", "X-Inner")
 			w.Header().Set("X-Inner", "1")
@@ -184,13 +197,19 @@ type decider struct {
 	tree   origins.Tree
 	set    util.SortedSet
 	hasSet bool
+	broken bool // building the decider panicked (the panic itself is reported by the suites that own it)
 }
 
-func newDecider(c *cors.Config) *decider {
+func newDecider(c *cors.Config) (d *decider) {
 	if c == nil {
 		return nil
 	}
-	d := &decider{}
+	defer func() {
+		if r := recover(); r != nil {
+			d = &decider{broken: true}
+		}
+	}()
+	d = &decider{}
 	allowAll := slices.Contains(c.Origins, "*")
 	for _, o := range c.Origins {
 		if o == "*" || allowAll {
@@ -224,6 +243,9 @@ func (d *decider) decide(rq request) (out string) {
 	}()
 	if d == nil {
 		return "---"
+	}
+	if d.broken {
+		return "PANIC"
 	}
 	p, a, h := "-", "-", "-"
 	for _, e := range rq.hdrs {
